@@ -215,6 +215,35 @@ int ops_geo(int n, char **a) {
         printf("\n");
         return 1;
     }
+    if (isop(op, "misc") && n == 2) {
+        H3Index h = pH(a[1]);
+        printf("ok %d %d %d %d %d %d %d\n", H3_EXPORT(getResolution)(h), H3_EXPORT(getBaseCellNumber)(h),
+               H3_EXPORT(isResClassIII)(h), H3_EXPORT(isPentagon)(h), H3_EXPORT(isValidCell)(h),
+               H3_EXPORT(isValidDirectedEdge)(h), H3_EXPORT(isValidVertex)(h));
+        return 1;
+    }
+    if (isop(op, "gcd") && n == 5) {
+        LatLng p = {pD(a[1]), pD(a[2])}, q = {pD(a[3]), pD(a[4])};
+        double r = H3_EXPORT(greatCircleDistanceRads)(&p, &q), km = H3_EXPORT(greatCircleDistanceKm)(&p, &q),
+               m = H3_EXPORT(greatCircleDistanceM)(&p, &q);
+        printf("ok "); outD(r); printf(" "); outD(km); printf(" "); outD(m); printf(" ");
+        outD(H3_EXPORT(degsToRads)(p.lat)); printf(" "); outD(H3_EXPORT(radsToDegs)(p.lng)); printf("\n");
+        return 1;
+    }
+    if (isop(op, "disksunsafe") && n >= 3) {
+        // disksunsafe k n cells...
+        int k = (int)pI(a[1]); int64_t cnt = pI(a[2]);
+        if (3 + cnt != n) return 0;
+        int64_t seg = 0; H3Error e = H3_EXPORT(maxGridDiskSize)(k, &seg);
+        if (e) { outErr(e); return 1; }
+        H3Index *cells = xbuf((size_t)cnt, sizeof(H3Index));
+        for (int64_t i = 0; i < cnt; i++) cells[i] = pH(a[3 + i]);
+        H3Index *out = xbuf((size_t)(seg * cnt), sizeof(H3Index));
+        e = H3_EXPORT(gridDisksUnsafe)(cells, (int)cnt, k, out);
+        if (e) outErr(e); else { printf("ok "); outHs(out, seg * cnt); printf("\n"); }
+        free(out); free(cells);
+        return 1;
+    }
     if (isop(op, "describe") && n == 2) { printf("ok %s\n", H3_EXPORT(describeH3Error)((H3Error)pI(a[1]))); return 1; }
     return 0;
 }
